@@ -3,6 +3,7 @@ package main
 import (
 	"fmt"
 	"go/types"
+	"regexp"
 	"sort"
 	"strings"
 
@@ -243,6 +244,9 @@ func (ex *Exec) zeroOfResult(t types.Type) Value {
 		if tup.Len() == 0 {
 			return nil
 		}
+		if tup.Len() == 1 {
+			return ex.zeroValue(tup.At(0).Type())
+		}
 		tv := &TupleVal{}
 		for i := 0; i < tup.Len(); i++ {
 			tv.V = append(tv.V, ex.zeroValue(tup.At(i).Type()))
@@ -252,11 +256,17 @@ func (ex *Exec) zeroOfResult(t types.Type) Value {
 	return ex.zeroValue(t)
 }
 
+var pathRe = regexp.MustCompile(`[A-Za-z0-9_.~-]+/`)
+
 func fnName(fn *ssa.Function) string {
 	if fn.Pkg != nil && fn.Pkg.Pkg.Path() == pkgPath {
 		return fn.RelString(fn.Pkg.Pkg)
 	}
-	return fn.String()
+	s := fn.String()
+	if strings.Contains(s, pkgPath+".") {
+		s = strings.ReplaceAll(s, pkgPath+".", "")
+	}
+	return pathRe.ReplaceAllString(s, "")
 }
 
 func (ex *Exec) callStatic(st *State, fn *ssa.Function, args []Value, bind []Value, x *ssa.Call) Value {
